@@ -468,7 +468,8 @@ META = {
             "(typestate; the clause behind invariance under lattice shifts of single atoms), the cutoff dominates every "
             "bondable pair (exact linear form), the clip bound exceeds eps, the 1x and 2x evaluations are siblings that "
             "agree on pbc/cutoff/radii/clustering, and the rank formula has base 2 matching the 2x repetition. Equality "
-            "with the union-find oracle on concrete inputs is not decided.",
+            "with the union-find oracle on concrete inputs is not decided."
+            " Also: no result can pre-empt the `more than one component -> None` test, reductions other than max(resolved radii) in the cutoff are violations, and the displacement-tensor wrapper hands cutoff/positions/cell to the search unreduced.",
     "note": "trusted: ASE wrap()/repeat()/get_positions semantics as tabulated in the rule; C10 for the exactness of the "
             "displacement tensor on wrapped input; CPython ast.",
     "technique": "typestate (wrappedness) on the CFG + symbolic linear forms + sibling agreement",
